@@ -25,6 +25,11 @@ TRUSTED = [
     "public methods",
     "harness/ref/render.py: the uncached reference renderer (oracle); it walks public attributes, never calls "
     "to_HAP, and asks side-effect-free scripted getters for the value a read must return",
+    "application subclasses: in 30% of the configurations 1-3 characteristics get a subclass of Characteristic that "
+    "overrides the public get_value() (reads a scripted device, no side effects, no getter callback); for the model such a "
+    "characteristic is one with a permanently installed getter whose outcome is what the accessor answers (the model "
+    "mirrors the repaired to_HAP, design/fixes/C11-overridden-get-value.patch, which never reuses a with-value "
+    "representation of such a characteristic)",
     "single-threaded histories (the threaded window is C20); services are linked only to services of the same accessory; "
     "structural histories (add service / add, remove bridged accessory / IIDManager assign, remove_obj, remove_iid "
     "interleaved with mutations and reads) hand the model the loader-built definitions of every new service "
@@ -80,10 +85,42 @@ def validated(c, v, client: bool = False) -> Optional[dict]:
     return {"v": v}
 
 
+def is_live(c) -> bool:
+    return dbrig.overrides_get_value(c)
+
+
+def other_reading(c):
+    """A valid reading different from the characteristic's stored value (deterministic)."""
+    props = c.properties
+    fmt = props["Format"]
+    vv = props.get("ValidValues")
+    if vv:
+        cands = sorted(vv.values())
+    elif fmt == "bool":
+        cands = [True, False]
+    elif fmt in ref.NUMERIC_FORMATS:
+        lo, hi = props.get("minValue", 0), props.get("maxValue", 100)
+        cands = [hi, lo, 1, 2, 21.5 if fmt == "float" else 21]
+    elif fmt == "string":
+        cands = ["live", "reading"]
+    else:
+        cands = ["AQEA", "AgEB"]
+    for v in cands:
+        ok = validated(c, v)
+        if ok is not None and ok["v"] != c.value:
+            return v
+    return cands[0]
+
+
 def getter_outcome(c) -> Optional[dict]:
     """Outcome of `get_value`'s use of the getter callback: the answer converted by `to_valid_value` and
     accepted by `valid_value_or_raise` (an answer that is not one of the declared valid values counts as a
     raising getter, /repo e2cce9e), or None when any of the three raised."""
+    if is_live(c):
+        try:
+            return {"v": c.get_value()}
+        except Exception:  # noqa: BLE001
+            return None
     try:
         v = c.to_valid_value(c.getter_callback())
         c.valid_value_or_raise(v)
@@ -103,6 +140,19 @@ class Hist:
             acc = rig.new_accessory(a["aid"], a["specs"])
             rig.top.add_accessory(acc)
             rig.number_accessory(acc)
+        # application subclasses: some characteristics read their value from a device on demand
+        # (cfg["live"] = [[k, "same"|"other"], ...]: the k-th readable characteristic, modulo their number;
+        # the device's first reading is the stored default itself, or a different valid value)
+        pickable = [c for _, acc in rig.accessories() for sv in acc.services for c in sv.characteristics
+                    if "pr" in c.properties["Permissions"]]
+        for k, reading in cfg.get("live", []):
+            if not pickable:
+                break
+            c = pickable[k % len(pickable)]
+            if is_live(c):
+                continue
+            dbrig.DEVICE[id(c)] = [c.value if reading == "same" else other_reading(c)]
+            c.__class__ = dbrig.live_class()
         self.owner: Dict[int, int] = {}
         for key, acc in rig.accessories():
             for s in acc.services:
@@ -153,7 +203,7 @@ class Hist:
                                     "display": c.display_name,
                                     "value": c.value,
                                     "alwaysNull": is_always_null(c),
-                                    "getter": bool(c.getter_callback),
+                                    "getter": bool(c.getter_callback) or is_live(c),
                                 }
                                 for c in s.characteristics
                             ],
@@ -213,7 +263,7 @@ class Hist:
         if self.broken is not None:
             return
         k = op["op"]
-        if k in ("set_value", "client_write", "override", "display_name", "getter", "assign_value"):
+        if k in ("set_value", "client_write", "override", "display_name", "getter", "assign_value", "device"):
             target = self.rig.objs[op["obj"]]
             before = self.others_snapshot(target)
             self.guarded(op)
@@ -236,7 +286,7 @@ class Hist:
         rig = self.rig
         k = op["op"]
         out = None
-        if k in ("set_value", "client_write", "override", "display_name", "getter", "assign_value"):
+        if k in ("set_value", "client_write", "override", "display_name", "getter", "assign_value", "device"):
             c = rig.objs[op["obj"]]
             n = op["obj"]
         if k == "set_value":
@@ -291,7 +341,8 @@ class Hist:
         elif k == "getter":
             mode = op["mode"]
             c.getter_callback = None if mode == "off" else dbrig.ScriptedGetter(mode, op.get("value"))
-            self.lines.append({"op": "setGetter", "obj": n, "on": mode != "off"})
+            # (a class that overrides get_value never consults the callback: its value stays on demand)
+            self.lines.append({"op": "setGetter", "obj": n, "on": mode != "off" or is_live(c)})
             self.dirty = True
         elif k == "available":
             acc = rig.accessory(op["aid"])
@@ -302,6 +353,10 @@ class Hist:
             svc = rig.objs[op["svc"]]
             acc.set_primary_service(svc)
             self.lines.append({"op": "setPrimary", "aid": op["aid"], "type": hap_type(svc.type_id)})
+            self.dirty = True
+        elif k == "device":
+            dbrig.DEVICE[id(c)][0] = op["value"]  # the reading changes in the device; pyhap is not told
+            self.lines.append({"op": "setGetter", "obj": n, "on": True})
             self.dirty = True
         elif k == "assign_value":
             c.value = op["value"]  # the public property setter: no validation
@@ -364,7 +419,7 @@ class Hist:
     def read_all(self, op):
         rig = self.rig
         incl = op["incl"]
-        g = [[rig.num(c), getter_outcome(c)] for _, _, _, c in self.chars() if c.getter_callback]
+        g = [[rig.num(c), getter_outcome(c)] for _, _, _, c in self.chars() if c.getter_callback or is_live(c)]
         self.lines.append({"op": "readAll", "incl": incl, "g": g})
         try:
             want = ref.render_db(rig.top, incl, rig.loader_names)
@@ -403,7 +458,7 @@ class Hist:
         for pos, (aid, iid) in enumerate(ids):
             acc = ref.accessory_for(rig.top, aid)
             obj = acc.iid_manager.get_obj(iid) if acc is not None else None
-            if isinstance(obj, Characteristic) and obj.getter_callback:
+            if isinstance(obj, Characteristic) and (obj.getter_callback or is_live(obj)):
                 g.append([pos, getter_outcome(obj)])
         self.lines.append({"op": "readChars", "ids": [list(p) for p in ids], "g": g})
         try:
@@ -555,6 +610,9 @@ def random_cfg(rng, pool) -> dict:
                 a["aid"] = None
             if a["aid"] is not None:
                 seen.add(a["aid"])
+    if rng.random() < 0.3:
+        # application subclasses overriding Characteristic.get_value(): 1-3 live characteristics
+        cfg["live"] = [[rng.randrange(1000), rng.choice(["same", "same", "other"])] for _ in range(rng.choice([1, 2, 3]))]
     return cfg
 
 
@@ -572,6 +630,9 @@ BOUNDARY_PROGRAMS = [
     # -70402 for its entry, GET /accessories fails like for any raising getter, nothing stale afterwards
     ["read_all", "read_one", ("getter_invalid",), "read_one", "read_many", "read_all", ("getter_change",), "read_one", "read_all",
      ("getter_invalid",), ("getter", "off"), "read_all", "read_one"],
+    # an application subclass overriding get_value(): the device reading changes, nobody tells pyhap
+    ["live", "read_all", "read_one", ("device",), "read_all", "read_one", "read_all_nv", ("device",), ("device",), "read_many", "read_all",
+     ("display_name", "Renamed"), "read_all", ("device",), "read_all"],
     # same-typed characteristics (one loader): fill the caches, override exactly one instance, read the
     # siblings, update a sibling's value, read again
     ["siblings", "read_all", "read_all_nv", ("override",), "read_all", "read_all_nv", "read_sib", ("sib_set_value",),
@@ -595,11 +656,14 @@ def sibling_cfg(rng, pool) -> dict:
 def gen_history(ctx: Ctx, pool, program=None, n_ops: Optional[int] = None) -> Hist:
     rng = ctx.rng
     cfg = sibling_cfg(rng, pool) if (program is not None and "siblings" in program) or (program is None and rng.random() < 0.2) else random_cfg(rng, pool)
+    if program is not None and "live" in program:
+        cfg["live"] = [[rng.randrange(1000), "same"], [rng.randrange(1000), rng.choice(["same", "other"])]]
     h = Hist(cfg)
     rig = h.rig
     live = [(key, acc, s, c) for key, acc, s, c in h.chars()]
     readable = [t for t in live if "pr" in t[3].properties["Permissions"]]
     focus = rng.sample(live, min(len(live), rng.choice([1, 2, 3, 5]))) + rng.sample(readable, min(len(readable), 2))
+    focus += [t for t in live if is_live(t[3])]
 
     def pair_of(t):
         key, acc, s, c = t
@@ -673,6 +737,8 @@ def gen_history(ctx: Ctx, pool, program=None, n_ops: Optional[int] = None) -> Hi
         key, acc, s, c = t
         y = rng.random()
         n = rig.num(c)
+        if is_live(c) and rng.random() < 0.5:
+            return {"op": "device", "obj": n, "value": rand_value(rng, c)}
         if y < 0.3:
             return {"op": "set_value", "obj": n, "value": rand_value(rng, c)}
         if y < 0.34:
@@ -698,6 +764,8 @@ def gen_history(ctx: Ctx, pool, program=None, n_ops: Optional[int] = None) -> Hi
         if ("getter_invalid",) in program:
             with_vv = [x for x in cands if x[3].properties.get("ValidValues") and x[3].properties["Format"] in ref.NUMERIC_FORMATS]
             cands = with_vv or cands
+        if "live" in program:
+            cands = [x for x in live if is_live(x[3])] or cands
         if "siblings" in program:
             # a characteristic type that occurs at least twice outside the information service
             by_type: Dict[str, list] = {}
@@ -713,7 +781,10 @@ def gen_history(ctx: Ctx, pool, program=None, n_ops: Optional[int] = None) -> Hi
         n = rig.num(c)
         sibs = [x for x in live if x[3] is not c and x[3].type_id == c.type_id] or [t]
         for step in program:
-            if step == "siblings":
+            if step in ("siblings", "live"):
+                continue
+            if step[0] == "device":
+                h.apply({"op": "device", "obj": n, "value": _other_value(rng, c)})
                 continue
             if step == "read_sib":
                 h.apply({"op": "read_chars", "ids": [pair_of(x) for x in sibs[:4]]})
@@ -860,7 +931,8 @@ def run(ctx: Ctx):
         "a case is one configuration (standalone accessory or bridge with 1-4 bridged accessories, all built from "
         "shipped services) plus a history of set_value / controller write (PUT /characteristics, with or without a "
         "raising setter callback) / override_properties / display-name change / getter install, change, removal / "
-        "availability and primary-service changes / linking services / plain value assignment, and in 40% of the random histories also structural "
+        "availability and primary-service changes / linking services / plain value assignment / a changed device reading behind a "
+        "characteristic whose class overrides get_value(), and in 40% of the random histories also structural "
         "changes (add service, add / remove bridged accessory, IIDManager assign / remove_obj / remove_iid), interleaved with GET /accessories (with and without values, via the "
         "driver and via HAPServerHandler.dispatch) and GET /characteristics. Non-trivial: at least one read happens "
         "after a mutation; distinct by configuration + op list."
@@ -881,6 +953,8 @@ def run(ctx: Ctx):
         st.case([h.cfg, h.ops], h.reads_after_mutation > 0)
         if h.structural:
             st.hit("outcome", "structural-history")
+        if h.cfg.get("live"):
+            st.hit("outcome", "live-subclass-history")
         for op, out in zip(h.ops, h.outs):
             st.hit("op", op["op"] + (":no-value" if op["op"] == "read_all" and not op["incl"] else ""))
             if op["op"] == "read_chars":
